@@ -1675,6 +1675,9 @@ func main() {
 			}
 			var td TestDir
 			if json.Unmarshal(b, &td) == nil {
+				for i := range td.Mods {
+					td.Mods[i].settle() // the intent of an archive layout is what the archive stores
+				}
 				res.Count("src:corpus")
 				one(&td, f.Seed)
 			}
